@@ -105,6 +105,11 @@ def drafty_contents(rng, n_random):
     for at in [-2, -1, 0, 1, n - 1, n, n + 1, 1000, 2**31, -2**31]:
         for ln in [-1, 0, 1, n, n + 1, 1000, 2**31]:
             out.append(("span-at%d-len%d" % (at, ln), {"txt": short, "fmt": [{"at": at, "len": ln, "tp": "ST"}]}))
+    # 64-bit boundaries: at + len must not wrap around
+    for at in [1, n - 1, n, n + 1, 2000, 2**62]:
+        for ln in [2**63 - 1, 2**63 - 1 - at, 2**63 - at, 2**63 - 1024, 2**62]:
+            out.append(("span64-at%d-len%d" % (at, ln), {"txt": short, "fmt": [{"at": at, "len": ln, "tp": "ST"}]}))
+            out.append(("span64k-at%d-len%d" % (at, ln), {"txt": short, "fmt": [{"at": at, "len": ln, "key": 0}], "ent": [{"tp": "LN", "data": {"url": "http://x"}}]}))
     for key in [-1, 0, 1, 2, 1000, 2**31]:
         out.append(("key%d" % key, {"txt": short, "fmt": [{"at": 0, "len": 2, "key": key}], "ent": [{"tp": "LN", "data": {"url": "http://x"}}]}))
         out.append(("key%d-noent" % key, {"txt": short, "fmt": [{"at": 0, "len": 2, "key": key}]}))
